@@ -1,5 +1,8 @@
 import PlasVerif.Proofs.GlobalState
 import PlasVerif.Proofs.ClassCache
+import PlasVerif.Proofs.GlobalStateSim
+import PlasVerif.Proofs.EnableBalanceTable
+import PlasVerif.Proofs.Holders
 /-!
 # C17 — A document's result does not depend on what was processed before it
 
@@ -54,26 +57,26 @@ example : result repaired (processAll repaired fresh
 /-- the full statement for the code as it is now; it is FALSE (see `current_leaks_*`) -/
 def isolation_statement : Prop := Isolated current (fun _ => True)
 
-/-- **Isolation for the current code (partial).**  What is missing for the full statement: the three known
-    findings — earlier documents must not assign a TeX register (D6c), not load the `article` class (D6d), not
-    define a column type (D6e).  Documents may still end inside math, boxes or lists and use `any` arguments. -/
+/-- **Isolation for the current code (partial).**  What is missing for the full statement: the two known
+    findings — earlier documents must not assign a TeX register (D6c) and not define a column type (D6e); see
+    `isolation_partial_reads` for the larger fragment in which they may, as long as `B` does not read them.  Documents may still end inside math, boxes or lists and use `any` arguments. -/
 theorem isolation_partial :
-    Isolated current (fun A => assignsReg A = false ∧ patchesClass A = false ∧ definesCol A = false) := by
+    Isolated current (fun A => assignsReg A = false ∧ definesCol A = false) := by
   intro hist B h
   refine isolation_of_clean current hist B (fun A hA => ?_)
-  obtain ⟨h1, h2, h3⟩ := h A hA
-  simp [Clean, current, h1, h2, h3]
+  obtain ⟨h1, h3⟩ := h A hA
+  simp [Clean, current, h1, h3]
 
 theorem state_restored_partial :
-    Restored current (fun A => assignsReg A = false ∧ patchesClass A = false ∧ definesCol A = false) := by
+    Restored current (fun A => assignsReg A = false ∧ definesCol A = false) := by
   intro hist h
   refine state_restored current hist (fun A hA => ?_)
-  obtain ⟨h1, h2, h3⟩ := h A hA
-  simp [Clean, current, h1, h2, h3]
+  obtain ⟨h1, h3⟩ := h A hA
+  simp [Clean, current, h1, h3]
 
 /-- non-vacuity: the hypotheses hold for a document that ends inside `$`, a list and an `\hbox{` -/
-example : (fun A => assignsReg A = false ∧ patchesClass A = false ∧ definesCol A = false)
-    [.docclass .book, .arg .any, .dollar, .listBegin, .item, .boxOpen, .dollar, .ifthen] := by decide
+example : (fun A => assignsReg A = false ∧ definesCol A = false)
+    [.docclass .article, .arg .any, .dollar, .listBegin, .item, .boxOpen, .dollar, .ifthen] := by decide
 
 /-- **Isolation for the pinned code (partial)**: additionally every earlier document must (i) close its math
     shifts, boxes and lists and (iv) use no `any`-typed argument. -/
@@ -145,10 +148,10 @@ theorem pinned_leaks_list :
 theorem current_leaks_register :
     result current (processAll current fresh [[.assign 0 7]]) [.use 0] ≠ result current fresh [.use 0] := by decide
 
-/-- D6d (current code): `article` then `book`: the index is at section level -/
-theorem current_leaks_class :
-    result current (processAll current fresh [[.docclass .article]]) [.docclass .book, .printindex] ≠
-      result current fresh [.docclass .book, .printindex] := by decide
+/-- D6d (pinned, repaired since): `article` then `book`: the index is at section level -/
+theorem pinned_leaks_class :
+    result pinned (processAll pinned fresh [[.docclass .article]]) [.docclass .book, .printindex] ≠
+      result pinned fresh [.docclass .book, .printindex] := by decide
 
 /-- D6e (current code): a column type defined in one document is known to the next -/
 theorem current_leaks_column :
@@ -158,6 +161,110 @@ theorem current_leaks_column :
 theorem isolation_statement_false : ¬ isolation_statement := by
   intro h
   exact current_leaks_register (h [[.assign 0 7]] [.use 0] (fun _ _ => trivial))
+
+/-! ### the largest fragment of `isolation_statement` for the current code -/
+
+/-- **Isolation for the current code, whatever the history does** (it may assign registers and define column
+    types — the two data still kept on classes — end inside math or lists, load any class): `B` has the result it
+    has in a fresh interpreter provided `B` itself reads no register that an earlier document assigned and tests no
+    column type that an earlier document defined (`Unobserved`, a decidable predicate on the texts).  What is
+    missing for `isolation_statement`: exactly the documents `B` that *do* read such a register / column type —
+    for those the statement is false (`current_leaks_register`, `current_leaks_column`). -/
+theorem isolation_partial_reads (hist : List (List Ev)) (B : List Ev) (h : Unobserved hist B = true) :
+    result current (processAll current fresh hist) B = result current fresh B := by
+  have hs : Sim ([] ++ hist.flatMap writesOf) ([] ++ hist.flatMap newcolsOf) init (processAll current (init, 0) hist).1 :=
+    processAll_touch current rfl rfl rfl hist [] [] init init 0 (Sim.refl init) ⟨rfl, rfl, rfl, rfl⟩
+  simp only [List.nil_append] at hs
+  have hav : ∀ e ∈ B, evAvoids (hist.flatMap writesOf) (hist.flatMap newcolsOf) e = true := by
+    simpa [Unobserved, List.all_eq_true] using h
+  obtain ⟨o, _⟩ := runDoc_sim current rfl rfl _ _ init (processAll current (init, 0) hist).1 B hs hav
+  simp only [result, process, fresh]
+  rw [canon_label, canon_label, o]
+
+/-- non-vacuity: the history assigns `\parindent` and `\thinmuskip`, copies a register, defines column type `Z`, loads
+    `article` and ends inside math and a list; `B` reads other registers, re-assigns `\parindent`, uses column `c` -/
+example : Unobserved
+    [[.docclass .article, .assign 0 7, .copy 8 9, .newcol 90, .dollar, .listBegin, .item, .arg .any]]
+    [.docclass .book, .use 1, .assign 0 3, .copy 2 3, .usecol 99, .dollar, .dollar, .printindex, .node] = true := by decide
+
+/-- the class-level state after ANY history of the current code differs from the initial one at most in the
+    registers the history assigned and the column types it defined (everything else — switches, trackers, index
+    level — is exactly initial, whatever the documents contain and however they end) -/
+theorem state_restored_except_written (hist : List (List Ev)) :
+    Sim (hist.flatMap writesOf) (hist.flatMap newcolsOf) init (processAll current fresh hist).1 := by
+  have hs := processAll_touch current rfl rfl rfl hist [] [] init init 0 (Sim.refl init) ⟨rfl, rfl, rfl, rfl⟩
+  simp only [List.nil_append] at hs
+  exact hs
+
+example : (processAll current fresh [[.assign 0 7, .newcol 90, .dollar, .listBegin, .arg .any, .docclass .article]]).1 =
+    { init with regs := init.regs.set 0 7, cols := 90 :: init.cols } := by decide
+
+/-! ### the abstraction "an argument read is balanced" against the regenerated reader skeletons -/
+section Readers
+open PlasVerif.Model.EnableBalance PlasVerif.Proofs.EnableBalanceTable
+
+/-- Every event of the model that reads an argument changes the enable level by `balancedArg`.  That is what the code
+    does: for each of the seven reader functions whose control-flow skeleton is regenerated from `plasTeX/TeX.py` on
+    every run (`readArgumentAndSource`, `readDimen`, `readInteger`, `readGlue`, `readMuGlue`, …), every execution that
+    returns or falls off the end — any branches, any number of loop iterations, exceptions caught anywhere — leaves the
+    enable level where `balancedArg` leaves it. -/
+theorem readers_agree_with_balancedArg (g : G) :
+    ∀ p ∈ PlasVerif.Generated.ArgPaths.skeletons, ∀ m : Int,
+      Exec p.2 g.level .returned m ∨ Exec p.2 g.level .normal m → m = (balancedArg g).level := by
+  intro p hp m h
+  have := all_skeletons_paths_balanced p hp g.level m h
+  simp [balancedArg, enable, disable, this]
+
+/-- non-vacuity: the skeleton of `readDimen` has a returning execution (the register branch) -/
+example : ∃ m, Exec PlasVerif.Generated.ArgPaths.readDimen 0 .returned m :=
+  ⟨0, .seqNormal (.disable 0) (.seqStop (.loopExit (.seqStop (.choiceL (.seqNormal (.enable _) (.ret _))) (by decide)) (Or.inl rfl)) (by decide))⟩
+
+end Readers
+
+/-! ### the per-document state holders (`TeXDocument.__init__`, `Context.__init__`, `TeX.__init__`, the configuration) -/
+section HoldersSec
+open PlasVerif.Model.Holders PlasVerif.Proofs.Holders
+
+/-- **Holders that share no mutable object isolate their documents.**  If no object is reachable from both the
+    holders of `A` and the holders of `B`, then after any sequence of mutations by `A` (of objects it reaches, storing
+    references to objects it reaches or to fresh ones) `B` reaches exactly the same objects, each with exactly the
+    same content — and the two documents are still disjoint.  The stream `holders` checks the hypothesis on the
+    object graphs of real documents and the conclusion by mutating every object of one and looking at the other. -/
+theorem holders_isolated {RA RB : List Nat} {h h' : Heap} (hs : Steps RA RB h h')
+    (hd : ∀ o, Reach h RA o → ¬ Reach h RB o) :
+    (∀ o, Reach h' RB o ↔ Reach h RB o) ∧ (∀ o, Reach h RB o → h' o = h o) ∧
+    (∀ o, Reach h' RA o → ¬ Reach h' RB o) :=
+  steps_frame hs hd
+
+/-- two documents: holder 0 with a dict 2, holder 1 with a dict 3 -/
+def twoDocs : Heap := fun o => if o = 0 then [2] else if o = 1 then [3] else []
+
+/-- non-vacuity: `A` stores a freshly allocated object 4 in its dict -/
+example : Steps [0] [1] twoDocs (write twoDocs 2 [4]) := by
+  refine .write 2 [4] (.step (a := 0) (.root (by simp)) (by simp [twoDocs])) (fun x hx => .inr ?_) (.done _)
+  simp at hx; subst hx
+  refine ⟨by simp [twoDocs], fun hr => ?_⟩
+  generalize hx : (4 : Nat) = x at hr
+  induction hr with
+  | root h => simp at h; omega
+  | step ha hb ih =>
+    rename_i a b
+    by_cases h1 : a = 0
+    · subst h1; simp [twoDocs] at hb; omega
+    · by_cases h2 : a = 1
+      · subst h2; simp [twoDocs] at hb; omega
+      · simp [twoDocs, h1, h2] at hb
+
+/-- holders 0 and 1 share their content object 2 (a mutable default) -/
+def sharedDefault : Heap := fun o => if o = 0 then [2] else if o = 1 then [2] else []
+
+/-- a shared default: what `A` writes into it, `B` sees -/
+theorem shared_default_leaks :
+    Reach sharedDefault [0] 2 ∧ Reach sharedDefault [1] 2 ∧ write sharedDefault 2 [3] 2 ≠ sharedDefault 2 := by
+  refine ⟨.step (a := 0) (.root (by simp)) (by simp [sharedDefault]),
+    .step (a := 1) (.root (by simp)) (by simp [sharedDefault]), by simp [write, sharedDefault]⟩
+
+end HoldersSec
 
 /-! ### the per-class caches `'@locals'` and `'@arguments'` are transparent
 
